@@ -30,6 +30,8 @@ FEATURE = {
     "nullchain": {"<start>": ["<a>"], "<a>": ["<b><c>x", "<b>"], "<b>": ["", "y<b>"], "<c>": ["", "z"]},
     "nestlist": {"<start>": ["<doc>"], "<doc>": ["<item>", "<item>\n<doc>"], "<item>": ["<key>: <vals>"],
                  "<key>": ["k", "kk"], "<vals>": ["<val>", "<val>,<vals>"], "<val>": ["u", "v", "[<vals>]"]},
+    # records with optional fields: the counted nonterminal <field> is not recursive and is the first alternative of <opt>
+    "optrec": {"<start>": ["<rec>"], "<rec>": ["<opt>|<opt>|<opt>"], "<opt>": ["<field>", "none"], "<field>": ["<ch>", "<ch><ch>"], "<ch>": ["a", "b", "c"]},
     # line-oriented format: every word ends in a newline
     "lines": {"<start>": ["<lines>"], "<lines>": ["<line>\n<lines>", "<line>\n"], "<line>": ["<ch>", "<ch><line>"], "<ch>": ["a", "b", ";"]},
 }
